@@ -206,35 +206,38 @@ theorem abs_quantWith (c : Cfg) (x : ℚ) (r : ℤ) :
 
 /-! ### band bounds, non-quadratic -/
 
-theorem key_rnd (c : Cfg) (hq : c.quad = false) (hf : c.floorMode = false) (v : ℚ) : key c v = v * v := by
-  unfold key; simp [hq, hf]
-theorem key_floor (c : Cfg) (hq : c.quad = false) (hf : c.floorMode = true) (v : ℚ) : key c v = v := by
-  unfold key; simp [hq, hf]
-theorem bandLo_rnd (c : Cfg) (hf : c.floorMode = false) (r : ℤ) :
-    bandLo c r = pow2 (2 * r - 1) * ((1 - beta) * (1 - beta)) := by unfold bandLo; simp [hf]
-theorem bandHi_rnd (c : Cfg) (hf : c.floorMode = false) (r : ℤ) :
-    bandHi c r = pow2 (2 * r + 1) * ((1 + beta) * (1 + beta)) := by unfold bandHi; simp [hf]
-theorem bandLo_floor (c : Cfg) (hq : c.quad = false) (hf : c.floorMode = true) (r : ℤ) :
-    bandLo c r = pow2 r * (1 - beta) := by unfold bandLo; simp [hf, hq]
-theorem bandHi_floor (c : Cfg) (hq : c.quad = false) (hf : c.floorMode = true) (r : ℤ) :
-    bandHi c r = pow2 (r + 1) * (1 + beta) := by unfold bandHi; simp [hf, hq]
+theorem key_nq (c : Cfg) (hq : c.quad = false) (v : ℚ) : key c v = v * v := by
+  unfold key; simp [hq]
+theorem bandLo_eq (c : Cfg) (r : ℤ) :
+    bandLo c r = pow2 (2 * r - 1) * ((1 - beta) * (1 - beta)) := rfl
+theorem bandHi_eq (c : Cfg) (r : ℤ) :
+    bandHi c r = pow2 (2 * r + 1) * ((1 + beta) * (1 + beta)) := rfl
 
 theorem key_mono (c : Cfg) (hq : c.quad = false) {v v' : ℚ} (hv : 0 ≤ v) (h : v ≤ v') :
     key c v ≤ key c v' := by
-  cases hf : c.floorMode
-  · rw [key_rnd c hq hf, key_rnd c hq hf]; exact mul_le_mul h h hv (le_trans hv h)
-  · rw [key_floor c hq hf, key_floor c hq hf]; exact h
+  rw [key_nq c hq, key_nq c hq]; exact mul_le_mul h h hv (le_trans hv h)
+
+theorem rawAdm_rnd (c : Cfg) (hf : c.floorMode = false) (v : ℚ) (r : ℤ) :
+    RawAdm c v r ↔ RndAdm c v r := by unfold RawAdm; simp [hf]
+
+theorem rawAdm_floor (c : Cfg) (hf : c.floorMode = true) (v : ℚ) (r : ℤ) :
+    RawAdm c v r ↔ ∃ rn : ℤ, RndAdm c v rn ∧ r = stepDown c v rn := by unfold RawAdm; simp [hf]
 
 /-- the exact rounded logarithm: `2^(2r-1) ≤ v² < 2^(2r+1)` -/
-theorem rawExp_rnd_spec (c : Cfg) (hq : c.quad = false) (hf : c.floorMode = false) (v : ℚ) (hv : 0 < v) :
-    pow2 (2 * rawExp c v - 1) ≤ v * v ∧ v * v < pow2 (2 * rawExp c v + 1) := by
+theorem rndExact_spec (c : Cfg) (hq : c.quad = false) (v : ℚ) (hv : 0 < v) :
+    pow2 (2 * rndExact c v - 1) ≤ v * v ∧ v * v < pow2 (2 * rndExact c v + 1) := by
   have hvv : 0 < v * v := mul_pos hv hv
   obtain ⟨s1, s2⟩ := floorLog2Rat_spec (v * v) hvv
-  have hr : rawExp c v = (floorLog2Rat (v * v) + 1) / 2 := by unfold rawExp; simp [hq, hf]
+  have hr : rndExact c v = (floorLog2Rat (v * v) + 1) / 2 := by unfold rndExact; rw [key_nq c hq]
   rw [hr]
   constructor
   · exact le_trans (pow2_le_pow2 (by omega)) s1
   · exact lt_of_lt_of_le s2 (pow2_le_pow2 (by omega))
+
+theorem rawExp_rnd_spec (c : Cfg) (hq : c.quad = false) (hf : c.floorMode = false) (v : ℚ) (hv : 0 < v) :
+    pow2 (2 * rawExp c v - 1) ≤ v * v ∧ v * v < pow2 (2 * rawExp c v + 1) := by
+  have : rawExp c v = rndExact c v := by unfold rawExp; simp [hf]
+  rw [this]; exact rndExact_spec c hq v hv
 
 /-- the exact floor logarithm: `2^r ≤ v < 2^(r+1)` -/
 theorem rawExp_floor_spec (c : Cfg) (hq : c.quad = false) (hf : c.floorMode = true) (v : ℚ) (hv : 0 < v) :
@@ -242,57 +245,107 @@ theorem rawExp_floor_spec (c : Cfg) (hq : c.quad = false) (hf : c.floorMode = tr
   have hr : rawExp c v = floorLog2Rat v := by unfold rawExp; simp [hq, hf]
   rw [hr]; exact floorLog2Rat_spec v hv
 
-/-- the exact exponent is admissible -/
+/-- the exact rounding is an admissible rounding -/
+theorem rndExact_adm (c : Cfg) (hq : c.quad = false) (v : ℚ) (hv : 0 < v) : RndAdm c v (rndExact c v) := by
+  obtain ⟨h1, h2⟩ := rndExact_spec c hq v hv
+  unfold RndAdm
+  rw [key_nq c hq, bandLo_eq, bandHi_eq]
+  have p1 := pow2_pos (2 * rndExact c v - 1)
+  have p2 := pow2_pos (2 * rndExact c v + 1)
+  constructor
+  · nlinarith [sq_sub_le_one]
+  · nlinarith [one_le_sq_add]
+
+/-- an admissible rounding of `v` is the floor exponent of `v` or one above -/
+theorem rndAdm_near_floor (c : Cfg) (hq : c.quad = false) (v : ℚ) (hv : 0 < v) (rn : ℤ)
+    (h : RndAdm c v rn) : rn = floorLog2Rat v ∨ rn = floorLog2Rat v + 1 := by
+  obtain ⟨f1, f2⟩ := floorLog2Rat_spec v hv
+  set f := floorLog2Rat v
+  obtain ⟨h1, h2⟩ := h
+  rw [key_nq c hq] at h1 h2
+  rw [bandLo_eq] at h1
+  rw [bandHi_eq] at h2
+  have hpf := pow2_pos f
+  have lo : pow2 (2 * f) * 1 ≤ v * v := by
+    rw [mul_one, pow2_two_mul]; exact mul_le_mul f1 f1 hpf.le hv.le
+  have hi : v * v ≤ pow2 (2 * (f + 1)) * 1 := by
+    rw [mul_one, pow2_two_mul]; exact mul_le_mul f2.le f2.le hv.le (pow2_pos _).le
+  by_contra hne
+  push Not at hne
+  rcases lt_or_gt_of_ne hne.1 with hlt | hgt
+  · exact pow2_scale_contra (a := 2 * f) (b := 2 * rn + 1) (by omega) sq_add_pos.le beta_sq_lt_two
+      (le_trans lo h2)
+  · have : f + 2 ≤ rn := by omega
+    exact pow2_scale_contra (a := 2 * rn - 1) (b := 2 * (f + 1)) (by omega) (by norm_num)
+      beta_one_lt_sq (le_trans h1 hi)
+
+/-- "floor" mode (after the fix): whatever admissible rounding the float logarithm produced, the
+    step-down test returns the exact floor exponent -/
+theorem rawAdm_floor_unique (c : Cfg) (hq : c.quad = false) (hf : c.floorMode = true) (v : ℚ)
+    (hv : 0 < v) (r : ℤ) (h : RawAdm c v r) : r = rawExp c v := by
+  have hr : rawExp c v = floorLog2Rat v := by unfold rawExp; simp [hq, hf]
+  obtain ⟨rn, hrn, rfl⟩ := (rawAdm_floor c hf v r).mp h
+  obtain ⟨f1, f2⟩ := floorLog2Rat_spec v hv
+  rw [hr]
+  unfold stepDown
+  simp only [hq, Bool.false_eq_true, if_false]
+  rcases rndAdm_near_floor c hq v hv rn hrn with h | h
+  · rw [h, if_neg (not_lt.mpr f1)]
+  · rw [h, if_pos f2]; omega
+
+/-- the exact exponent is admissible (both modes) -/
 theorem rawExp_adm (c : Cfg) (hq : c.quad = false) (v : ℚ) (hv : 0 < v) : RawAdm c v (rawExp c v) := by
-  unfold RawAdm
   cases hf : c.floorMode
-  · obtain ⟨h1, h2⟩ := rawExp_rnd_spec c hq hf v hv
-    rw [key_rnd c hq hf, bandLo_rnd c hf, bandHi_rnd c hf]
-    have p1 := pow2_pos (2 * rawExp c v - 1)
-    have p2 := pow2_pos (2 * rawExp c v + 1)
-    constructor
-    · nlinarith [sq_sub_le_one]
-    · nlinarith [one_le_sq_add]
-  · obtain ⟨h1, h2⟩ := rawExp_floor_spec c hq hf v hv
-    rw [key_floor c hq hf, bandLo_floor c hq hf, bandHi_floor c hq hf]
-    have p1 := pow2_pos (rawExp c v)
-    have p2 := pow2_pos (rawExp c v + 1)
-    constructor
-    · nlinarith [one_sub_beta_le]
-    · nlinarith [one_le_one_add_beta]
+  · rw [rawAdm_rnd c hf]
+    have : rawExp c v = rndExact c v := by unfold rawExp; simp [hf]
+    rw [this]; exact rndExact_adm c hq v hv
+  · have h : RawAdm c v (stepDown c v (rndExact c v)) :=
+      (rawAdm_floor c hf v _).mpr ⟨rndExact c v, rndExact_adm c hq v hv, rfl⟩
+    have := rawAdm_floor_unique c hq hf v hv _ h
+    rw [this] at h; exact h
 
 theorem rawExp_mono (c : Cfg) (hq : c.quad = false) {v v' : ℚ} (hv : 0 < v) (h : v ≤ v') :
     rawExp c v ≤ rawExp c v' := by
   cases hf : c.floorMode
   · have : floorLog2Rat (v * v) ≤ floorLog2Rat (v' * v') :=
       floorLog2Rat_mono (mul_pos hv hv) (mul_le_mul h h hv.le (le_trans hv.le h))
-    have e1 : rawExp c v = (floorLog2Rat (v * v) + 1) / 2 := by unfold rawExp; simp [hq, hf]
-    have e2 : rawExp c v' = (floorLog2Rat (v' * v') + 1) / 2 := by unfold rawExp; simp [hq, hf]
+    have e1 : rawExp c v = (floorLog2Rat (v * v) + 1) / 2 := by
+      unfold rawExp rndExact; simp [hf, key_nq c hq]
+    have e2 : rawExp c v' = (floorLog2Rat (v' * v') + 1) / 2 := by
+      unfold rawExp rndExact; simp [hf, key_nq c hq]
     rw [e1, e2]; omega
   · have e1 : rawExp c v = floorLog2Rat v := by unfold rawExp; simp [hq, hf]
     have e2 : rawExp c v' = floorLog2Rat v' := by unfold rawExp; simp [hq, hf]
     rw [e1, e2]; exact floorLog2Rat_mono hv h
 
-/-- the band relation orders exponents, except inside one band -/
-theorem rawAdm_order (c : Cfg) (hq : c.quad = false) {v v' : ℚ} (hv : 0 ≤ v) (h : v ≤ v') {r r' : ℤ}
-    (ha : RawAdm c v r) (ha' : RawAdm c v' r') (hlt : r' < r) : r' = r - 1 := by
-  by_contra hne
-  have hr : r' + 2 ≤ r := by omega
-  have hk := key_mono c hq hv h
-  have hle : bandLo c r ≤ bandHi c r' := le_trans ha.1 (le_trans hk ha'.2)
+/-- the band relation orders exponents, except inside one band ("rnd"); in "floor" mode it
+    always does -/
+theorem rawAdm_order (c : Cfg) (hq : c.quad = false) {v v' : ℚ} (hv : 0 < v) (h : v ≤ v') {r r' : ℤ}
+    (ha : RawAdm c v r) (ha' : RawAdm c v' r') (hlt : r' < r) :
+    c.floorMode = false ∧ r' = r - 1 := by
   cases hf : c.floorMode
-  · rw [bandLo_rnd c hf, bandHi_rnd c hf] at hle
+  · refine ⟨rfl, ?_⟩
+    rw [rawAdm_rnd c hf] at ha ha'
+    by_contra hne
+    have hr : r' + 2 ≤ r := by omega
+    have hk := key_mono c hq hv.le h
+    have hle : bandLo c r ≤ bandHi c r' := le_trans ha.1 (le_trans hk ha'.2)
+    rw [bandLo_eq, bandHi_eq] at hle
     exact pow2_scale_contra (by omega) sq_add_pos.le beta_sq_lt hle
-  · rw [bandLo_floor c hq hf, bandHi_floor c hq hf] at hle
-    exact pow2_scale_contra (by omega) (by linarith [one_le_one_add_beta]) beta_lin_lt hle
+  · exfalso
+    have e1 := rawAdm_floor_unique c hq hf v hv r ha
+    have e2 := rawAdm_floor_unique c hq hf v' (lt_of_lt_of_le hv h) r' ha'
+    have := rawExp_mono c hq hv h
+    omega
 
 /-- at an exact power of two "rnd" leaves no choice -/
 theorem rawAdm_pow2_rnd (c : Cfg) (hq : c.quad = false) (hf : c.floorMode = false) (e r : ℤ)
     (h : RawAdm c (pow2 e) r) : r = e := by
+  rw [rawAdm_rnd c hf] at h
   obtain ⟨h1, h2⟩ := h
-  rw [key_rnd c hq hf, ← pow2_two_mul] at h1 h2
-  rw [bandLo_rnd c hf] at h1
-  rw [bandHi_rnd c hf] at h2
+  rw [key_nq c hq, ← pow2_two_mul] at h1 h2
+  rw [bandLo_eq] at h1
+  rw [bandHi_eq] at h2
   by_contra hne
   rcases lt_or_gt_of_ne hne with hlt | hgt
   · -- r ≤ e - 1 : upper bound too small
@@ -305,6 +358,11 @@ theorem rawExp_pow2_floor (c : Cfg) (hq : c.quad = false) (hf : c.floorMode = tr
     rawExp c (pow2 e) = e := by
   unfold rawExp; simp [hq, hf, floorLog2Rat_pow2]
 
+/-- at an exact power of two neither mode leaves a choice -/
+theorem rawAdm_pow2 (c : Cfg) (hq : c.quad = false) (e r : ℤ) (h : RawAdm c (pow2 e) r) : r = e := by
+  cases hf : c.floorMode
+  · exact rawAdm_pow2_rnd c hq hf e r h
+  · rw [rawAdm_floor_unique c hq hf _ (pow2_pos e) r h, rawExp_pow2_floor c hq hf]
 
 /-! ### `x_filter`, the deterministic exponent, sign and magnitude by sign of the input -/
 
@@ -446,15 +504,19 @@ theorem rawAdm_le_of_le_pow2 (c : Cfg) (hq : c.quad = false) {v : ℚ} (hv : 0 <
     (hvk : v ≤ pow2 k) (ha : RawAdm c v r) : r ≤ k := by
   by_contra hlt
   push Not at hlt
-  obtain ⟨h1, _⟩ := ha
   cases hf : c.floorMode
-  · rw [key_rnd c hq hf, bandLo_rnd c hf] at h1
+  · rw [rawAdm_rnd c hf] at ha
+    obtain ⟨h1, _⟩ := ha
+    rw [key_nq c hq, bandLo_eq] at h1
     have hvv : v * v ≤ pow2 (2 * k) * 1 := by
       rw [mul_one, pow2_two_mul]; exact mul_le_mul hvk hvk hv.le (pow2_pos k).le
     exact pow2_scale_contra (by omega) (by norm_num) beta_one_lt_sq (le_trans h1 hvv)
-  · rw [key_floor c hq hf, bandLo_floor c hq hf] at h1
-    have hvv : v ≤ pow2 k * 1 := by rw [mul_one]; exact hvk
-    exact pow2_scale_contra (by omega) (by norm_num) beta_one_lt_lin (le_trans h1 hvv)
+  · have hr := rawAdm_floor_unique c hq hf v hv r ha
+    obtain ⟨h1, _⟩ := rawExp_floor_spec c hq hf v hv
+    rw [← hr] at h1
+    have : pow2 (k + 1) ≤ pow2 r := pow2_le_pow2 (by omega)
+    have := pow2_lt_pow2 (show k < k + 1 by omega)
+    linarith
 
 theorem le_rmax_right (a b : ℚ) : b ≤ rmax a b := by unfold rmax; split_ifs <;> linarith
 
